@@ -10,6 +10,7 @@ import (
 	"runtime/debug"
 	"sort"
 	"strconv"
+	"strings"
 	"time"
 )
 
@@ -36,7 +37,19 @@ func main() {
 	list := flag.Bool("list", false, "list armed properties")
 	overlayFile := flag.String("overlay", "", "JSON file {path: replacement-file} analysed instead of the working tree file (self-test only)")
 	explain := flag.String("explain", "", "violations file written by an earlier run: print each recorded violation, then re-run the property's check on the current tree")
+	patternsFlag := flag.Bool("patterns", false, "list armed properties with the package patterns their quick tier loads")
 	flag.Parse()
+	if *patternsFlag {
+		var ids []string
+		for id := range props {
+			ids = append(ids, id)
+		}
+		sort.Strings(ids)
+		for _, id := range ids {
+			fmt.Println(id, strings.Join(props[id].Patterns, " "))
+		}
+		return
+	}
 	if *explain != "" {
 		b, err := os.ReadFile(*explain)
 		if err != nil {
